@@ -411,6 +411,7 @@ for _p, _t in ADDENDA13.items():
     CLAIMED[_p]['text'] = CLAIMED[_p]['text'].rstrip() + ' ' + _t
 
 ADDENDA14 = {
+    'C02': "(N, extended) every store to sampling_times is None, a move of itself, or filled by iterating over the taxa (taxon-index order), never over the tree's leaves or a traversal.",
     'C01': "(W, extended) tip states are encoding(symbol) clamped at state_count, the index of the all-ones column of the tip-state kernels (C02.M clamp rule).",
     'C03': "(G, extended) the matrices, frequencies and tip data handed to both the plain and the rescaling kernel are those of this tree: p_t(branch quantity x site rate), "
            "unaltered (the C01.B assembly rules), and no p_t floors / clamps its time argument (C04.E clause).",
